@@ -3,7 +3,7 @@
    parse_loop / config_tokens / range2 / arange are the hand models (Model/Cli.v, Model/ParseNumbers.v)
    tied by ./check C13.  Axiom-free. *)
 From Coq Require Import ZArith QArith List Bool Ascii String Permutation.
-From VF Require Import Model.Data Model.DataQ Model.ParseNumbers Gen.Gen_cli Model.Cli Proofs.C13_proofs.
+From VF Require Import Model.Data Model.Cal Model.DataQ Model.ParseNumbers Gen.Gen_cli Model.Cli Proofs.C13_proofs.
 Import ListNotations.
 Local Open Scope string_scope.
 
@@ -90,6 +90,11 @@ Theorem C13_range_includes_the_end_point : forall a s (k : nat), (1 # 10000 < s)
             (nth k l 0 == a + inject_Z (Z.of_nat k) * s).
 Proof. exact range_includes_end_point. Qed.
 
+(* --list-dates: date and hh:mm:ss of every verified time, for every unix time (also those not on the hour) *)
+Theorem C13_list_dates_clock : forall t : Z, let '(dt, hh, mm, ss) := date_clock t in
+  (dt = unixtime_to_date t /\ 0 <= hh < 24 /\ 0 <= mm < 60 /\ 0 <= ss < 60 /\ t = day_start t + hh * 3600 + mm * 60 + ss)%Z.
+Proof. exact date_clock_spec. Qed.
+Print Assumptions C13_list_dates_clock.
 Print Assumptions C13_option_order_does_not_matter.
 Print Assumptions C13_range_includes_the_end_point.
 Print Assumptions C13_selection_options_reach_documented_argument.
